@@ -8,6 +8,8 @@ pub mod c02_tuples;
 pub mod c04;
 pub mod c09;
 pub mod c11;
+pub mod c12;
+pub mod c13;
 
 pub fn run(id: &str, rep: &mut Report) -> bool {
     match id {
@@ -16,6 +18,8 @@ pub fn run(id: &str, rep: &mut Report) -> bool {
         "C04" => c04::run(rep),
         "C09" => c09::run(rep),
         "C11" => c11::run(rep),
+        "C12" => c12::run(rep),
+        "C13" => c13::run(rep),
         _ => return false,
     }
     true
@@ -29,6 +33,8 @@ pub fn replay(id: &str, case: &Value) -> Result<Vec<(String, String)>, String> {
         "C04" => c04::replay(case),
         "C09" => c09::replay(case),
         "C11" => c11::replay(case),
+        "C12" => c12::replay(case),
+        "C13" => c13::replay(case),
         _ => Err(format!("no replay for {}", id)),
     }
 }
